@@ -14,10 +14,9 @@ pub fn generate(prop: Prop, rng: &mut Rng) -> Scenario {
     match prop {
         Prop::C07 => w_defrag::generate(rng, prop),
         Prop::C06 => match rng.below(10) {
-            0..=5 => w_taps::generate(rng, prop),
-            6..=7 => w_stream::generate(rng, prop),
-            8 => w_dgram::generate(rng, prop),
-            _ => w_defrag::generate(rng, prop),
+            0..=6 => w_taps::generate(rng, prop),
+            7..=8 => w_stream::generate(rng, prop),
+            _ => w_dgram::generate(rng, prop),
         },
         Prop::C01 => match rng.below(20) {
             0..=7 => w_taps::generate(rng, prop),
@@ -103,10 +102,10 @@ pub fn meta(prop: Prop) -> Meta {
 
         Prop::C06 => Meta {
             level: "exploration",
-            rule: "one evaluation = one simulated run in one of four worlds: (taps, 60%) one structure of 16 kinds (TLS/DTLS records, TLS/DTLS handshake message, extension through the three dispatchers, SCT, SCT list, DH / ECDH / EC parameters, both digitally-signed forms), well-formed or with a single nested field changed, followed by in-flight bytes (nothing, garbage, or bytes that are valid structures themselves), delivered by a seeded segmentation schedule with the named parser applied to the buffer at every delivery event; (stream, 20%) record streams where every framed record is re-parsed on its exact extent, as buffered, and with the whole rest of the stream behind it, plus per-message containment against the sender's byte layout; (dgram, 10%) DTLS datagrams; (defrag, 10%) TlsRecordsParser histories with slice provenance (caller's record vs parser buffer via the hook); distinct = distinct abstract traces; non-trivial = at least 2 delivery events / records or a fault fired",
-            fault_kinds: &["trailing-inflight", "length-lie", "seg-dribble", "coalesce", "fragment", "empty-fragment", "nocopy-call", "reset", "multi-record-datagram", "dgram-truncate"],
-            cell_spaces: vec![("tap", Some((0..64).filter(|i| ![9 * 4 + 3, 10 * 4 + 3, 11 * 4 + 3, 14 * 4 + 3, 15 * 4 + 3].contains(i)).collect()))],
-            real: &["the 16 tapped self-delimiting parsers", "parse_tls_record_with_header", "TlsRecordsParser (provenance)", "parse_dtls_plaintext_record"],
+            rule: "one evaluation = one simulated run in one of four worlds: (taps, 70%) one structure of 17 kinds (TLS/DTLS records, TLS/DTLS handshake message, extension through the three dispatchers and through the 16 tag-specific single-extension parsers, SCT, SCT list, DH / ECDH / EC parameters, both digitally-signed forms), well-formed or with a single nested field changed, followed by in-flight bytes (nothing, garbage, or bytes that are valid structures themselves), delivered by a seeded segmentation schedule with the named parser applied to the buffer at every delivery event; (stream, 20%) record streams where every framed record is re-parsed on its exact extent, as buffered, and with the whole rest of the stream behind it, plus per-message containment against the sender's byte layout; (dgram, 10%) DTLS datagrams; distinct = distinct abstract traces; non-trivial = at least 2 delivery events / records or a fault fired",
+            fault_kinds: &["trailing-inflight", "length-lie", "seg-dribble", "coalesce", "fragment", "multi-record-datagram", "dgram-truncate"],
+            cell_spaces: vec![("tap", Some((0..68).filter(|i| ![10 * 4 + 3, 11 * 4 + 3, 12 * 4 + 3, 15 * 4 + 3, 16 * 4 + 3].contains(i)).collect()))],
+            real: &["the tapped self-delimiting parsers (17 kinds)", "parse_tls_record_with_header", "parse_dtls_plaintext_record"],
             stub: &["structure encoders (RFC layouts)", "byte pipe / datagram net / record layer", "slice provenance walker over all returned types", "declared-extent framers"],
             assumptions: &[
                 "the check compares runs of the same parser on b and b++x (locality), never parsed values with sent values (that would be C04/C05/C13/C14, which are not claimed)",
@@ -122,7 +121,7 @@ pub fn meta(prop: Prop) -> Meta {
             real: &["all 83 public parse_* functions (allparsers.rs)", "TlsRecordsParser", "tls_state_transition", "gen_* serializers", "Debug / Display of every returned value"],
             stub: &["all stubs of the other worlds", "counting GlobalAlloc (per-thread, per-call peak)", "watchdog thread (real clock used only to declare a hang)"],
             assumptions: &[
-                "heap bound per call: peak additional live heap <= A*len + 64 KiB with A = 4 x the largest returned element type (computed from the real types at run time), plus 3 x MAX_RECORD_DATA for TlsRecordsParser calls",
+                "heap bound per call: peak additional live heap <= A*len + 1 MiB with A = 16 x the largest returned element type (computed from the real types at run time), plus 3 x MAX_RECORD_DATA for TlsRecordsParser calls",
                 "inputs are corruptions of well-formed traffic and injected garbage up to ~70 000 bytes (streams up to 11 MiB in the oversize scenario); this samples, it does not enumerate all byte strings",
                 "allocation failure is not injected (it aborts rather than unwinds and the crate has no fallible-allocation path)",
             ],
